@@ -87,6 +87,30 @@ pub fn directed() -> Vec<(&'static str, Vec<Step>)> {
             ],
         ),
         (
+            "same-string-twice-in-one-row",
+            vec![
+                d(Op::CreateTable {
+                    name: "Twice".into(),
+                    cols: vec![ColDef::new("K", CT::Int16).key(), ColDef::new("A", CT::Str(0)).nullable(), ColDef::new("B", CT::Str(0)).nullable(), ColDef::new("Twice", CT::Str(0)).nullable()],
+                }),
+                ins("Twice", vec![vec![V::Int(1), V::s("t0x1 kalamazoo"), V::s("t0x1 kalamazoo"), V::s("Twice")], vec![V::Int(2), V::s("t0x1 kalamazoo"), V::Null, V::s("t0x2 other")]]),
+                d(Op::Delete { table: "Twice".into(), cond: keq(1) }),
+                d(Op::Update { table: "Twice".into(), sets: vec![("A".into(), V::s("t0x2 other")), ("B".into(), V::s("t0x2 other"))], cond: None }),
+                d(Op::Delete { table: "Twice".into(), cond: None }),
+                d(Op::DropTable { name: "Twice".into() }),
+            ],
+        ),
+        (
+            "update-to-the-value-already-held",
+            vec![
+                create("T"),
+                ins("T", vec![vec![V::Int(1), V::s("t0x1 zanzibar")], vec![V::Int(2), V::s("t0x2 other")]]),
+                d(Op::Update { table: "T".into(), sets: vec![("V".into(), V::s("t0x1 zanzibar"))], cond: None }),
+                d(Op::Update { table: "T".into(), sets: vec![("V".into(), V::s("t0x1 zanzibar"))], cond: None }),
+                d(Op::Delete { table: "T".into(), cond: None }),
+            ],
+        ),
+        (
             "empty-string-cells",
             vec![create("T"), ins("T", vec![vec![V::Int(1), V::s("")], vec![V::Int(2), V::s("")]]), d(Op::Update { table: "T".into(), sets: vec![("V".into(), V::s(""))], cond: None })],
         ),
@@ -156,7 +180,7 @@ pub fn run(ctx: &Ctx) -> Report {
         }
         return rep;
     }
-    let n_random = ctx.budget(500, 12_000);
+    let n_random = ctx.budget(5_000, 60_000);
     let seed = ctx.seed;
     let thorough = !ctx.quick();
     let mut rep = parallel(ctx.threads, |shard, n| {
